@@ -1,12 +1,49 @@
-(* C07 - Clean never discards a snapshot that was matched in this run (first slice). *)
-From Coq Require Import List NArith Bool Lia.
+(* C07 - Clean never discards a snapshot that was matched in this run. *)
+From Coq Require Import String.
+From Coq Require Import List NArith Bool Lia Permutation.
+Local Open Scope string_scope.
 Import ListNotations.
 From Snaps Require Import Base.Bytes Base.Assoc.
-From Snaps Require Import Model.Frame Model.PathModel Model.Mode Model.Api Model.Natural Model.Clean.
-From Snaps Require Import Proofs.CleanP.
+From Snaps Require Import Model.Frame Model.PathModel Model.Mode Model.Api Model.Natural Model.Clean Model.RunFilter.
+From Snaps Require Import Proofs.FrameP Proofs.CleanP Proofs.CleanEntriesP Proofs.TestIdP Proofs.RunFilterP.
 
-(* whenever deleting and sorting are both off (report mode without sort; always on CI) nothing
-   at all is touched, addressed or not *)
+(* an entry whose id is registered (addressed in this process) survives EVERY rewrite - prune, sort,
+   both - with exactly the body it had, exactly once ... *)
+Theorem C07_addressed_survives : forall reg skp update sort es nf e,
+  Forall centry_ok es -> NoDup (map fst es) -> In e es -> mem_bytes (fst e) reg = true ->
+  snd (examine_file reg skp update sort (render (map to_entry es))) = Some nf ->
+  exists out, nf = render (map to_entry out) /\ In e out /\ NoDup (map fst out).
+Proof. exact addressed_survives. Qed.
+Print Assumptions C07_addressed_survives.
+
+(* ... and is never listed as obsolete *)
+Theorem C07_addressed_not_reported : forall reg skp update sort es (e : centry),
+  Forall centry_ok es -> NoDup (map fst es) -> mem_bytes (fst e) reg = true ->
+  ~ In (fst e) (fst (examine_file reg skp update sort (render (map to_entry es)))).
+Proof. exact addressed_not_reported. Qed.
+Print Assumptions C07_addressed_not_reported.
+
+(* the hypotheses are met by every id the library writes for a test named Test...; ids of other
+   names (fuzz seeds, benchmarks) are NOT recognised: known finding K5 *)
+Theorem C07_ids_recognised : forall name k,
+  is_prefix (B "Test") name = true -> no_space name -> recognised (snapshot_occ_fmt name k).
+Proof. exact recognised_go_name. Qed.
+Print Assumptions C07_ids_recognised.
+
+Theorem C07_non_test_ids_unrecognised :
+  get_test_id (hdr (B "FuzzThing/seed#0 - 1")) = None /\ get_test_id (hdr (B "BenchmarkX - 1")) = None.
+Proof. split; vm_compute; reflexivity. Qed.
+Print Assumptions C07_non_test_ids_unrecognised.
+
+(* -count: with `count` uniform executions (each making k calls of test t on the file) every ordinal
+   1..k is registered - whatever count >= 1 is *)
+Theorem C07_count_registered : forall cleanup path t k count i,
+  0 < count -> 1 <= i <= k -> alookup2 (path, t) cleanup = Some (count * k) ->
+  mem_bytes (snapshot_occ_fmt t i) (registered_tests cleanup path count) = true.
+Proof. exact registered_tests_uniform. Qed.
+Print Assumptions C07_count_registered.
+
+(* in report mode without sorting and always on CI nothing at all is touched *)
 Theorem C07_report_mode_untouched : forall s sort_opt count,
   clean_deletes (s_env s) = false -> clean_sorts (s_env s) sort_opt = false ->
   s_fs (fst (clean_run s sort_opt count)) = s_fs s /\ cr_writes (snd (clean_run s sort_opt count)) = [].
